@@ -73,6 +73,7 @@ pub fn marker_menu() -> Vec<(&'static str, Vec<HSpec>)> {
             end_tag_ops: Some(vec![Op::After("\x01et\x02".into(), true)]),
             log: true,
             last_only: false,
+            merge: false,
         }]),
         ("inner-el(title)", vec![HSpec::with_ops(
             HKind::Element,
